@@ -453,6 +453,10 @@ MUTANTS = {}
 
 
 # --------------------------------------------------------------------------- spec -> code replay
+class _ReplayStuck(Exception):
+    """the code under test does not follow the scripted behaviour any more (only on changed trees)"""
+
+
 def _quiesce(s, allow_ext, limit=50000):
     """run every runnable thread (optionally not the _ExtendedTypeFetcher thread) until all of
     them wait; virtual time does not advance"""
@@ -466,7 +470,7 @@ def _quiesce(s, allow_ext, limit=50000):
         s.trace.append(cand[0].name)
         s.step_thread(cand[0])
         n += 1
-    raise common.MachineryError('replay: no quiescence after %d steps' % limit)
+    raise _ReplayStuck('no quiescence after %d steps' % limit)
 
 
 def _bag_size(b):
@@ -502,6 +506,7 @@ def replay(job):
     cache_dir = tlc.scratch_dir('c03cache-') if cfg['cached'] != 'none' else None
     mism = None
     nsteps = matched = 0
+    steps_todo = job['steps']
     try:
         with vsched.scheduler(vsched.FifoPolicy(), max_steps=400000, max_threads=1000) as s:
             ses = Session(s, sc, cache_dir=cache_dir)
@@ -511,17 +516,18 @@ def replay(job):
                 if cfg['cached'] != 'none':
                     def warm():
                         ses.open(1)
-                        ses.connected_evt.wait(30)
-                        ses.idle_evt.clear()
-                        ses.idle_evt.wait(1.0)
-                        ses.finalize()
-                        ses.ev.append(ses.snapshot('end'))
+                        if ses.connected_evt.wait(30):
+                            ses.idle_evt.clear()
+                            ses.idle_evt.wait(1.0)
+                            ses.finalize()
+                            ses.ev.append(ses.snapshot('end'))
                         cf.close_link()
                     u0 = s.spawn(warm, 'user')
                     s.run(until=lambda: u0.finished, horizon=100.0)
-                    if ses.nconn != 1:
-                        raise common.MachineryError('replay: warm-up connect for the cache did not complete')
                     attempt = 2
+                    if ses.nconn != 1:
+                        mism = (0, 'warm-up', 'the connect that fills the cache did not complete')
+                        steps_todo = []
                     if cfg['cached'] != 'own':
                         path = os.path.join(cache_dir, '%08X.json' % ses.crc[kind])
                         if os.path.exists(path):
@@ -529,63 +535,67 @@ def replay(job):
                             ses.cache_label[kind] = CACHE_LABEL[cfg['cached']]
                 dev.manual = kind
                 u = s.spawn(lambda: ses.open(attempt), 'user')
-                for (name, args, post) in job['steps']:
-                    nsteps += 1
-                    if name == 'Start':
-                        s.run(until=lambda: len(dev.upq) > 0, horizon=s.now + 50.0)
-                        _quiesce(s, False)
-                    elif name == 'DevReply':
-                        if not dev.upq:
-                            mism = mism or (nsteps, name, 'no request at the device')
-                            break
-                        dev.dev_reply()
-                    elif name in ('Deliver', 'Dup'):
-                        i = dev.find(args[0]['ch'], args[0]['d'])
-                        if i is None:
-                            mism = mism or (nsteps, name, 'reply not in flight: %s' % (args[0],))
-                            break
-                        if name == 'Dup':
-                            dev.dup(i)
-                        else:
-                            dev.deliver(i)
-                            _quiesce(s, False)
-                    elif name == 'ExtSend':
-                        _quiesce(s, True)
-                    elif name == 'Timeout':
-                        n0 = len(dev.upq)
-                        t_end = s.now + 2.0
-                        while len(dev.upq) == n0 and s.now < t_end:
-                            runnable, timed = s.enabled()
-                            cand = [r for r in runnable if not r.name.startswith('_ExtendedTypeFetcher')]
-                            if cand:
-                                s.steps += 1
-                                s.step_thread(cand[0])
-                            elif timed:
-                                s.tick(timed)
-                            else:
-                                break
-                        _quiesce(s, False)
-                    else:
-                        raise common.MachineryError('replay: unknown action %s' % name)
-                    if s.steps >= s.max_steps:
-                        mism = mism or (nsteps, name, 'step budget exhausted')
-                        break
-                    ses.finalize()
-                    st = ses.project(kind)
-                    f = ses.fetcher.get(kind)
-                    real = dict(st)
-                    real['xreq'] = NOREQ
-                    if kind == 'param' and ses.ext is not None and ses.ext._req_param != -1:
-                        real['xreq'] = ses.ext._req_param
-                    real['up'] = len(dev.upq)
-                    real['down'] = len(dev.bag)
-                    real['pend'] = len(cf._answer_patterns)
-                    real['idents'] = [e['ident'] for e in lib_table(f.toc)] if f is not None else []
-                    want = post
-                    if real == want:
-                        matched += 1
-                    elif mism is None:
-                        mism = (nsteps, name, {k: (real[k], want[k]) for k in want if real[k] != want[k]})
+                for (name, args, post) in steps_todo:
+                  try:
+                      nsteps += 1
+                      if name == 'Start':
+                          s.run(until=lambda: len(dev.upq) > 0, horizon=s.now + 50.0)
+                          _quiesce(s, False)
+                      elif name == 'DevReply':
+                          if not dev.upq:
+                              mism = mism or (nsteps, name, 'no request at the device')
+                              break
+                          dev.dev_reply()
+                      elif name in ('Deliver', 'Dup'):
+                          i = dev.find(args[0]['ch'], args[0]['d'])
+                          if i is None:
+                              mism = mism or (nsteps, name, 'reply not in flight: %s' % (args[0],))
+                              break
+                          if name == 'Dup':
+                              dev.dup(i)
+                          else:
+                              dev.deliver(i)
+                              _quiesce(s, False)
+                      elif name == 'ExtSend':
+                          _quiesce(s, True)
+                      elif name == 'Timeout':
+                          n0 = len(dev.upq)
+                          t_end = s.now + 2.0
+                          while len(dev.upq) == n0 and s.now < t_end:
+                              runnable, timed = s.enabled()
+                              cand = [r for r in runnable if not r.name.startswith('_ExtendedTypeFetcher')]
+                              if cand:
+                                  s.steps += 1
+                                  s.step_thread(cand[0])
+                              elif timed:
+                                  s.tick(timed)
+                              else:
+                                  break
+                          _quiesce(s, False)
+                      else:
+                          raise common.MachineryError('replay: unknown action %s' % name)
+                      if s.steps >= s.max_steps:
+                          mism = mism or (nsteps, name, 'step budget exhausted')
+                          break
+                      ses.finalize()
+                      st = ses.project(kind)
+                      f = ses.fetcher.get(kind)
+                      real = dict(st)
+                      real['xreq'] = NOREQ
+                      if kind == 'param' and ses.ext is not None and ses.ext._req_param != -1:
+                          real['xreq'] = ses.ext._req_param
+                      real['up'] = len(dev.upq)
+                      real['down'] = len(dev.bag)
+                      real['pend'] = len(cf._answer_patterns)
+                      real['idents'] = [e['ident'] for e in lib_table(f.toc)] if f is not None else []
+                      want = post
+                      if real == want:
+                          matched += 1
+                      elif mism is None:
+                          mism = (nsteps, name, {k: (real[k], want[k]) for k in want if real[k] != want[k]})
+                  except _ReplayStuck as e:
+                    mism = mism or (nsteps, name, str(e))
+                    break
                 # the behaviour is over: let the download complete undisturbed
                 dev.manual = None
                 for _ in range(10000):
@@ -947,7 +957,9 @@ def _nreplies(sc, kind):
 
 
 def scenarios(tier, rng):
-    """(family, scenario) list.  Families: sizes (every table size of the property x both protocol
+    """(family, scenario) list.  Round 2 added: setup (set-up replies outside the downloads duplicated /
+    delayed), reset (Log.reset after connected), cachefmt (cache file variants, ro/rw directory), late
+    duplicates in every fault list, element-like checksums.  Families: sizes (every table size of the property x both protocol
     generations, no faults / one fault), small (sizes 0..3, every single fault position x action and
     pairs of them), boundary (one fault around index 255/256 and at the last index), cache (second
     connect served from the cache the library wrote itself), random (seeded: sizes up to 40, fault
@@ -1308,6 +1320,12 @@ def main(tier, seed, replay=None):
         'the property is conditional on connected; an execution with only duplicated/delayed/stale replies that never '
         'signals connected is nevertheless reported (clause NeverConnected): the quantifier is about exactly these executions',
         'the firmware twin (simdev TocTable/ParamService) follows the dissector layouts; the extended-type query is answered for V1 devices too',
+        'every reply of the connection set-up may be duplicated (at once or 1..5 packets later) or delayed: link-service source, '
+        'protocol version, log RESET, table INFO, items, extended types, memory count; table checksums are arbitrary, in '
+        'particular such that the bytes of an INFO reply parse as a table element',
+        'cache present = whatever an earlier run may have left under the table\'s checksum in the read-write or read-only '
+        'directory with the RIGHT table in it or unusable: written by this release, by an older one (no extended key), by a '
+        'later one (extra keys), truncated, garbage, an entry without a needed key; connected must show the device\'s table in every case',
     ]
     if replay:
         rp = json.load(open(replay))['replay']
@@ -1438,7 +1456,8 @@ def main(tier, seed, replay=None):
                 'policy, cache/2 connects); sources: transition tour over the complete state graph of %s (%d of %d edges) '
                 'and TLC -simulate behaviours replayed step by step, table sizes {0,1,2,3,254..258,300} x V1/V2, every '
                 'single fault position x action on tables of size 0..3, faults around index 255/256 and the last index, '
-                'cache miss-then-hit, seeded random; distinct = distinct (tables, delivery history); every trace has >= 1 '
+                'cache miss-then-hit and cache files of other formats (ro/rw), duplicated/delayed set-up replies '
+                '(link source, version, RESET, memory count), Log.reset after connected, seeded random; distinct = distinct (tables, delivery history); every trace has >= 1 '
                 'connected snapshot judged by TocFetchProps' % (gcfg, covered, total))
     out.exhaustive = bool(covered == total)
     pick = [0, len(traces) // 2, len(traces) - 1]
